@@ -13,7 +13,8 @@ CFG = dict(
               "scan_multiset_ScanFloat3", "scan_multiset_ScanFloat2", "scan_multiset_ScanFloat1",
               "scan_multiset_ScanPrimitives_Triangle", "scan_multiset_ScanPrimitives_Point", "scan_multiset_ScanPrimitives_LineStrip",
               "blocks_disjoint_AddField", "blocks_disjoint_AddFieldParallel", "blocks_disjoint_AddFieldParallel2",
-              "chunks_enumerated", "index_injective", "append_perm_tris", "merge_keeps_all_tris"],
+              "chunks_enumerated", "index_injective", "addfield_cells_distinct", "addFieldParallel_eq_addField",
+              "append_perm_tris", "merge_keeps_all_tris"],
     # regeneration pins: rfl/decide equalities on extractor output (they fail to build when the extracted text changes;
     # they say nothing about behaviour by themselves) — built with the module, not counted as property theorems
     helper_theorems=["methods_covered (pin: the extractor found exactly the seven *ParallelWithPoolSize methods)",
@@ -27,12 +28,26 @@ CFG = dict(
     trusted=T_COMMON + ["engine F extractor /verif/go/facts/c10.go (fails on any shape it does not understand)"],
     residue=["'on every thread schedule' is proved for the event-log model (atomic events, sequentially consistent memory, wg.Wait after all workers); that the Go code is such a program (no other shared writes) is checked by the race-detector extra, not proved",
              "'free of data races whenever the callback is': race-detector run with a mutex-protected recording callback (runtime)",
-             "AddFieldParallel = AddField cell-for-cell is not one theorem: blocks_disjoint (per axis) + index_injective + interleaving_irrelevant are separate; their composition (3-D product, += as read-modify-write of a cell no other job touches) is argued in notes/C10.md and tied by the harness",
+             "addFieldParallel_eq_addField is about the job model of Model/ParCanvas.lean: a cell is (block coordinate, index), i.e. distinct blocks own distinct arrays (in Go: section.positions assigns each block its own float1Data slot under chunkMutex — not modelled; the seeded 'claim under the mutex, append after re-locking' change is caught by the race detector and the harness, not by a theorem); for AddFieldParallel2 the calc phase (resultData[i] = sample of the i-th loop iteration, same z,y,x nesting as the merge) enters only through the pin block_workers_agree",
              "marchFloat1BlockPosition (same function in both variants) is not modelled; well-formedness of block meshes is a hypothesis of append_perm_tris",
              "WeldByFloat3Attribute after the merge keeps the first vertex of a 0.001-cell: representative depends on block order (for the sequential March too); harness compares exact positions on exact fields and weld cells on smooth fields",
              "job/result channel protocol of AddFieldParallel*/marchFloat1Parallel (each job taken once) and the NumCPU()==1 delegations are not modelled",
              "fieldBounds (float floor/ceil) not modelled: block theorems hold for all integer bounds; VectorInt.Sub assumed componentwise"],
-    assumptions=["int(math.Floor(float64(a)/float64(b))) is floor division (exact below 2^53); Go int modelled as unbounded Int (no overflow)",
+    assumptions=["the element count of the primitive scans is Mesh.PrimitiveCount(): extracted and proved non-negative (primitiveCount_nonneg); the attribute scans' count is len(data) (a slice length); corpus witness for a negative count: EmptyMesh(LineStripTopology) before /repo 9e6522a (stream c10, note corpus:empty-linestrip; theorem emptystrip_witness)",
+                 "int(math.Floor(float64(a)/float64(b))) is floor division (exact below 2^53); Go int modelled as unbounded Int (no overflow)",
                  "the user callback is a pure function of (index, value) in the model"],
+    manifest=dict(
+        text="Lean 4 theorems about expressions REGENERATED from the Go source on every run (engine F, go/ast; the extractor exits non-zero on any statement shape it does not understand) for the seven Mesh.*ParallelWithPoolSize methods, Mesh.PrimitiveCount / Topology.IndexSize, and the block jobs of marching/canvas.go. "
+             "partition_exact_* (9 specs) / all_specs_exact: for every element count n and every pool size >= 1 the workers' visit lists, concatenated in worker order, are exactly 0..n-1 (incl. n < size, size does not divide n, n = 0). "
+             "control_flow: from the guards in source order, every method panics iff size < 1, runs the sequential counterpart iff size = 1, enters the worker loop iff size >= 2 (workers_count: with `size` workers). "
+             "primitiveCount_nonneg / scan_primitives_exact_any_mesh: the count the primitive scans partition is the regenerated PrimitiveCount expression, non-negative for every index count and topology (false before /repo 9e6522a; emptystrip_witness is that defect as a closed term: count -1, pool 4 gives callbacks -3, -2). "
+             "interleaving_irrelevant, modify_parallel_eq_sequential_* (3), scan_multiset_* (6): in an event-log model where a schedule is ANY merge of the workers' logs preserving each worker's order, Modify leaves exactly the sequential loop's array and Scan delivers a permutation of the sequential (index, value) pairs, for all n, size >= 1, callbacks, schedules. "
+             "blocks_disjoint_* (three functions, textually identical clamp expressions today), chunks_enumerated, index_injective: per axis the clamped block ranges partition the padded domain for all integer bounds; cells of a block are distinct. addFieldParallel_eq_addField (with addfield_cells_distinct): in a job model built from the regenerated expressions (one job per enumerated block, events = the read-modify-write cell updates of its triple loop, any update function), for every integer domain, every initial canvas and EVERY interleaving of the jobs, AddFieldParallel and AddFieldParallel2 leave exactly the canvas of the sequential AddField. append_perm_tris / merge_keeps_all_tris: appending well-formed block meshes in any order gives the same multiset of triangles-as-corner-positions. "
+             "methods_covered, topologies_covered, block_workers_agree are regeneration pins (rfl/decide on extractor output), listed as helpers, not as property theorems. "
+             "Tie: regeneration before every build; every parallel Mesh entry point run with recording callbacks for n <= 64 x pool -1..17 (thorough: all pairs; quick: 19 edge pairs + 40 sampled) on Triangle/Point/LineStrip meshes vs the model's visit lists, vs the sequential call (oracle same_output) and vs the property (oracle visits_exact), empty line strip first as corpus witness; fields over 1-8 storage blocks (negative block coordinates, two fields per canvas, axis-squashed shapes): AddFieldParallel/AddFieldParallel2 vs AddField as sample multisets and marched triangle multisets, MarchParallel vs March (oracle same_tri_multiset); -race build of stream c10r at GOMAXPROCS 1/2/16 in both tiers.",
+        note="Trusted: Lean kernel + propext/Quot.sound/Classical.choice; the extractor (go/facts/c10*.go); the harness; the Go race detector. Modelled, not proved about Go: int(math.Floor(float64(a)/float64(b))) as floor division (exact below 2^53), Go int as unbounded Int, callbacks as pure functions. "
+             "Runtime residue: 'on every thread schedule' and 'race-free whenever the callback is' are theorems about the event-log model; that the Go code is such a program (no other shared writes, wg.Wait after all workers, channel protocol of the block jobs) is the race detector's verdict on the runs made. "
+             "addFieldParallel_eq_addField is about a job model in which a cell is (block coordinate, index): that distinct blocks own distinct arrays (slot allocation under chunkMutex) and the calc phase of AddFieldParallel2 are not modelled. Not modelled: marchFloat1BlockPosition (same function in both variants), fieldBounds float rounding, the NumCPU()==1 delegations; the weld after the merge is compared on weld cells for smooth fields because its representative choice depends on block order for the sequential March as well.",
+        technique="Lean 4 proof over partition / block-range expressions regenerated from the Go AST + inductive interleaving model of schedules; exhaustive small-space correspondence with compiled oracles; race detector for the runtime residue"),
     rule="one evaluation = one request line answered by the Go implementation and the Lean model/oracle; stream c10: per (n, size) pair 29 lines over 9 specs; stream c10m: per canvas 5 oracle lines (2 sample multisets, 3 triangle multisets)",
 )
